@@ -1,10 +1,22 @@
-"""C09 - marshal/unmarshal round trips.  Part 1 (template for all checks): integer codec.
+"""C09 - marshal/unmarshal and disasm/asm round trips.
 
-Pipeline (DESIGN.md section 0):  regenerate Gen/Marsh.lean from the current marsh.c -> kernel re-checks
-Props/C09 -> axiom audit -> correspondence model vs real pushint/readint (wrapper TU, ASan) -> direct
-round-trip oracle on the implementation -> report.
+Pipeline (DESIGN.md section 0):
+ (A) regenerate Gen/Marsh.lean from the current marsh.c (lead bytes, integer/size codec constants, recursion guard,
+     numbering point of every container type on the marshal and on the unmarshal side)
+ (B,C) kernel re-checks Props/C09 (integer codec, size codec, data-graph round trip with sharing and cycles) + axiom audit
+ (D) correspondence: model vs real pushint/readint/push64/read64 (wrapper TU, ASan, bit exact); model vs real `marshal`
+     byte for byte and `unmarshal` value for value on random value graphs built in real janet (harness/C09/graph.janet);
+     accept/reject and decoded value on truncated / byte-substituted encodings; recursion depth boundary
+ (E) direct oracle on the implementation, independent of the model: (unmarshal (marshal g)) deep-equal-with-sharing to g
+     for every generated graph; behavioural comparison of closures / fibers / PEGs / channels / int64 boxes and of
+     asm(disasm f) (harness/C09/code.janet); readint(pushint x) sweep (all 2^32 in the thorough tier).
 """
+import concurrent.futures as cf
+import json
 import os
+import re
+import struct
+
 from vlib.core import run_cmd, VERIF
 from vlib.build import BuildError
 from tools.gen import marsh as gen_marsh
@@ -16,7 +28,15 @@ THEOREMS = [
     "JanetModel.Props.C09.readint_consumes",
     "JanetModel.Props.C09.signExtMid_eq",
 ]
+try:
+    with open(os.path.join(VERIF, "harness/C09/theorems.txt")) as _f:
+        THEOREMS += [l.strip() for l in _f if l.strip() and not l.startswith("#")]
+except FileNotFoundError:
+    pass
+
 ENV = dict(os.environ, ASAN_OPTIONS="detect_leaks=0:abort_on_error=0", UBSAN_OPTIONS="print_stacktrace=1")
+H = os.path.join(VERIF, "harness/C09")
+NPROC = 12
 
 
 def int_cases(ctx, n_random):
@@ -35,7 +55,6 @@ def int_cases(ctx, n_random):
 def byte_cases(ctx, ints, n_random):
     """encodings, all their truncations, single-byte substitutions of the lead byte, random strings"""
     hs = set([""])
-    import struct
     for x in ints[:: max(1, len(ints) // 400)]:
         if 0 <= x < 128:
             enc = bytes([x])
@@ -56,12 +75,156 @@ def byte_cases(ctx, ints, n_random):
     return sorted(hs)
 
 
+def u64_cases(ctx, n_random):
+    xs = set()
+    for w in range(0, 65):
+        for d in (-2, -1, 0, 1, 2):
+            v = (1 << w) + d
+            if 0 <= v < 2**64:
+                xs.add(v)
+    for b in (0xF0, 0xF1, 0xEF, 0xFF, 0x100):
+        xs.add(b)
+    for _ in range(n_random):
+        w = ctx.rng.range(1, 64)
+        xs.add(ctx.rng.below(1 << w))
+    return sorted(xs)
+
+
+def u64_byte_cases(ctx, xs, n_random):
+    hs = set([""])
+    for x in xs[:: max(1, len(xs) // 300)]:
+        if x <= 0xF0:
+            enc = bytes([x])
+        else:
+            body = x.to_bytes((x.bit_length() + 7) // 8, "little")
+            enc = bytes([0xF0 + len(body)]) + body
+        for k in range(len(enc) + 1):
+            hs.add(enc[:k].hex())
+        hs.add((enc + b"\x01").hex())
+    for lead in range(0xE0, 0x100):
+        hs.add(bytes([lead] + [0x11 * (i + 1) & 0xFF for i in range(10)]).hex())
+        hs.add(bytes([lead, 0, 0, 0, 0, 0, 0, 0, 0]).hex())
+    for _ in range(n_random):
+        n = ctx.rng.range(1, 11)
+        hs.add(bytes(ctx.rng.below(256) for _ in range(n)).hex())
+    return sorted(hs)
+
+
+# --------------------------------------------------------------------------- descriptions
+def parse_desc(d):
+    parts = d.split(" | ")
+    return parts[0], [p.split(" ") for p in parts[1:]]
+
+
+def canon_real(tok):
+    """janet_wrap_number_safe: every NaN read from the wire becomes the canonical quiet NaN"""
+    b = bytes.fromhex(tok[1:])
+    if len(b) == 8:
+        v = int.from_bytes(b, "little")
+        if (v >> 52) & 0x7FF == 0x7FF and v & ((1 << 52) - 1):
+            return "R000000000000f87f"
+    return tok
+
+
+def comparable_decoded(root, objs, known_reg):
+    """can two descriptions of the same decoded value be compared textually?  (hash order of tables with pointer parts
+    is not determined by the bytes; registry names unknown to the harness decode to nil on the implementation)"""
+    for o in objs:
+        k = o[0]
+        if k.startswith("M") or k == "U":
+            kv = o[2:]
+            if len(kv) > 2 and any(t.startswith("r") for t in kv):
+                return False
+        if k.startswith("G") and k[1:] not in known_reg:
+            return False
+        if k.startswith("R") and canon_real(k) == "R000000000000f87f":
+            return False      # a NaN is not `=` to itself: the describer cannot see that two references are one object
+    # objects numbered on the wire but dropped from the result (pair with nil value, duplicate key): the describer only
+    # sees what is reachable
+    reach, todo = set(), [root]
+    while todo:
+        t = todo.pop()
+        if t.startswith("r") and t[1:].isdigit():
+            i = int(t[1:])
+            if i not in reach and i < len(objs):
+                reach.add(i)
+                todo += [x for x in objs[i][1:] if x.startswith("r")]
+    if len(reach) != len(objs):
+        return False
+    return True
+
+
+def hashcons(root, objs):
+    """identify immutable objects with equal contents (what janet `=` and therefore the describer does)"""
+    canon, ren, out = {}, {}, []
+    def r(t):
+        return "r%d" % ren[int(t[1:])] if t.startswith("r") and t[1:].isdigit() and int(t[1:]) in ren else t
+    for i, o in enumerate(objs):
+        k = o[0]
+        if k.startswith("T"):
+            o = ["T%d" % (int(k[1:]) & 1)] + o[1:]      # only the bracket bit of the flag word is observable (tuple/type)
+        elif k.startswith("R"):
+            o = [canon_real(k)]
+        o2 = [o[0]] + [r(t) for t in o[1:]]
+        key = " ".join(o2)
+        immutable = k[0] in "RSTUG" and key != "R000000000000f87f"
+        if immutable and key in canon:
+            ren[i] = canon[key]
+            continue
+        ren[i] = len(out)
+        if immutable:
+            canon[key] = len(out)
+        out.append(o2)
+    return r(root), out
+
+
+def canon_decoded(root, objs):
+    root, objs = hashcons(root, objs)
+    out = []
+    for o in objs:
+        k = o[0]
+        if k.startswith("R"):
+            out.append(canon_real(k))
+            continue
+        if k.startswith("T"):
+            # only the bracket bit of the flag word is observable from janet (tuple/type)
+            out.append(" ".join(["T%d" % (int(k[1:]) & 1)] + o[1:]))
+            continue
+        if k.startswith("M") or k == "U":
+            kv = o[2:]
+            pairs = sorted(zip(kv[0::2], kv[1::2]))
+            out.append(" ".join([k, o[1]] + [x for p in pairs for x in p]))
+        else:
+            out.append(" ".join(o))
+    return " | ".join([root] + out)
+
+
+def proto_type_error(root, objs):
+    """janet_asserttype on a decoded prototype is not in the model: emulate it on the model's output"""
+    for o in objs:
+        k = o[0]
+        if (k.startswith("M") or k == "U") and o[1] != "_":
+            p = o[1]
+            if not p.startswith("r"):
+                return True
+            t = objs[int(p[1:])][0] if int(p[1:]) < len(objs) else "?"
+            if k.startswith("M") and not t.startswith("M"):
+                return True
+            if k == "U" and t != "U":
+                return True
+    return False
+
+
 def run(ctx):
     quick = ctx.tier == "quick"
     broken = []
+    stats = {}
     # (A) regenerate
+    lb = {}
     try:
-        ctx.gen("Marsh.lean", gen_marsh.render(ctx.build.tree if ctx.build.boot() is None else ctx.build.tree))
+        ctx.build.boot()
+        ctx.gen("Marsh.lean", gen_marsh.render(ctx.build.tree))
+        lb = gen_marsh.extract(ctx.build.tree)[0]
     except ExtractError as e:
         broken.append("translator tools/gen/marsh.py: %s" % e)
         ctx.broken.append(broken[-1])
@@ -74,23 +237,26 @@ def run(ctx):
         ok, log = ctx.leanchecker("JanetModel.Props.C09")
         if not ok:
             broken.append("leanchecker JanetModel.Props.C09: " + log[-300:])
-    # (D) correspondence
+    ctx.say("obligations: %d broken" % len(broken))
+    # (D1) codec correspondence
     exe = ctx.driver()
     try:
-        hx = ctx.build.harness("asan", "c09codec", [os.path.join(VERIF, "harness/C09/codec.c")])
+        hx = ctx.build.harness("asan", "c09codec", [os.path.join(H, "codec.c")])
     except BuildError as e:
         hx = None
         broken.append("harness does not compile against the current tree: %s" % str(e)[-400:])
     ints = int_cases(ctx, 3000 if quick else 200000)
     hexes = byte_cases(ctx, ints, 2000 if quick else 100000)
-    lines = ["pushint %d" % x for x in ints] + [("readint " + h).strip() for h in hexes]
+    u64s = u64_cases(ctx, 2000 if quick else 100000)
+    u64hex = u64_byte_cases(ctx, u64s, 2000 if quick else 50000)
+    lines = (["pushint %d" % x for x in ints] + [("readint " + h).strip() for h in hexes]
+             + ["push64 %d" % x for x in u64s] + [("read64 " + h).strip() for h in u64hex])
     diffs = []
     impl_out = None
     if hx:
         rc, out, err = run_cmd([hx], input=("\n".join(lines) + "\n").encode(), timeout=600, env=ENV)
         impl_out = out.decode(errors="replace").splitlines()
         if rc != 0 or len(impl_out) != len(lines):
-            # crash / sanitizer abort while decoding: find the line (bisect by running prefixes)
             lo, hi = 0, len(lines)
             while hi - lo > 1:
                 mid = (lo + hi) // 2
@@ -108,16 +274,243 @@ def run(ctx):
             if a != b:
                 diffs.append({"op": l, "impl": a, "model": b})
         if diffs:
-            broken.append("correspondence model/impl on integer codec: %d differing lines, first %r" % (len(diffs), diffs[0]))
+            broken.append("correspondence model/impl on integer/size codec: %d differing lines, first %r" % (len(diffs), diffs[0]))
             ctx.broken.append(broken[-1])
-    # (E) direct oracle on the implementation (independent of the model)
+    ctx.say("codec correspondence: %d lines, %d diffs" % (len(lines), len(diffs)))
+
+    # (D2/E) data graphs
+    janet = None
+    try:
+        janet = ctx.build.variant("asan")["janet"]
+    except BuildError as e:
+        ctx.violation("build-failed:asan", {"kind": "build", "error": str(e)}, found=False, what="tree does not build (asan)")
     direct_fail = None
+    graph_cases = []
+    gstats = {"cases": 0, "with_registry": 0, "refs": 0, "objects": 0, "max_objects": 0, "kinds": {}, "oracle_fail": 0,
+              "marshal_diffs": 0, "unmarshal_diffs": 0}
+    gdiffs = []
+    violations = []
+    if janet:
+        nproc = NPROC
+        per = 250 if quick else 4000
+        seeds = [ctx.rng.below(2**31 - 1) + 1 for _ in range(nproc)]
+        if broken:
+            per *= 4      # something no longer checks: search harder for a failing input
+        def gen(seed):
+            rc, out, err = run_cmd([janet, os.path.join(H, "graph.janet"), "gen", str(seed), str(per), "45"], timeout=3000, env=ENV)
+            return seed, rc, out.decode(errors="replace").splitlines(), err.decode(errors="replace")[-3000:]
+        with cf.ThreadPoolExecutor(nproc) as ex:
+            res = list(ex.map(gen, seeds))
+        for seed, rc, out, err in res:
+            for l in out:
+                p = l.split(" ", 4)
+                if len(p) == 5:
+                    graph_cases.append((seed,) + tuple(p))
+            if rc != 0:
+                violations.append(("graph-harness-crash", {"kind": "graph-crash", "gen_seed": seed, "per": per, "rc": rc, "stderr": err, "last": out[-1:] },
+                                   "graph.janet gen %d crashed / raised (rc=%r): %s" % (seed, rc, err[-300:])))
+        glines = []
+        for seed, idx, verdict, reg, hexb, desc in graph_cases:
+            glines.append("marshal " + desc)
+            glines.append("unmarshal " + hexb)
+        mout = ctx.model(glines, exe=exe) if exe else None
+        for i, (seed, idx, verdict, reg, hexb, desc) in enumerate(graph_cases):
+            gstats["cases"] += 1
+            gstats["with_registry"] += int(reg)
+            root, objs = parse_desc(desc)
+            gstats["objects"] += len(objs)
+            gstats["max_objects"] = max(gstats["max_objects"], len(objs))
+            nref = hexb.count("da")  # rough
+            for o in objs:
+                k = o[0][0]
+                gstats["kinds"][k] = gstats["kinds"].get(k, 0) + 1
+            if verdict != "ok":
+                gstats["oracle_fail"] += 1
+                violations.append(("graph-roundtrip:" + verdict.split(":")[1] if ":" in verdict else "graph-roundtrip",
+                                   {"kind": "graph", "gen_seed": seed, "per": per, "index": int(idx), "verdict": verdict, "marshalled_hex": hexb, "description": desc, "registry": reg},
+                                   "(unmarshal (marshal g)) is not the same graph as g: %s (graph.janet gen %d, case %s)" % (verdict, seed, idx)))
+            if mout is not None:
+                m, u = mout[2 * i], mout[2 * i + 1]
+                if m != hexb:
+                    gstats["marshal_diffs"] += 1
+                    gdiffs.append({"what": "marshal bytes", "gen_seed": seed, "index": int(idx), "description": desc, "impl": hexb, "model": m})
+                exp = "ok %d %s" % (len(hexb) // 2, desc)
+                if u != exp:
+                    gstats["unmarshal_diffs"] += 1
+                    gdiffs.append({"what": "unmarshal of the implementation's bytes", "gen_seed": seed, "index": int(idx), "expected": exp, "model": u})
+        if gdiffs:
+            broken.append("correspondence model/impl on data graphs: %d marshal / %d unmarshal differences, first %s" %
+                          (gstats["marshal_diffs"], gstats["unmarshal_diffs"], json.dumps(gdiffs[0])[:600]))
+            ctx.broken.append(broken[-1])
+        ctx.say("graph correspondence: %d cases, %d objects, marshal diffs %d, unmarshal diffs %d, oracle failures %d" %
+                (gstats["cases"], gstats["objects"], gstats["marshal_diffs"], gstats["unmarshal_diffs"], gstats["oracle_fail"]))
+
+        # (D3) decode of damaged encodings: truncations and single-byte substitutions
+        mut = []
+        pick = [c for c in graph_cases if len(c[4]) <= 600]
+        nm = 1500 if quick else 20000
+        boundary = [0, 1, 0x7f, 0x80, 0xbf, 0xc0, 0xc7] + list(range(0xc8, 0xea)) + [0xff]
+        for _ in range(min(nm, len(pick) * 4)):
+            c = ctx.rng.choice(pick)
+            b = bytearray(bytes.fromhex(c[4]))
+            r = ctx.rng.below(10)
+            if r < 4 and len(b) > 1:
+                b = b[:ctx.rng.range(1, len(b) - 1)]
+            elif r < 8:
+                b[ctx.rng.below(len(b))] = ctx.rng.choice(boundary)
+            else:
+                j = ctx.rng.below(len(b))
+                b[j] = (b[j] + ctx.rng.choice([1, 255])) & 0xFF
+            mut.append(bytes(b).hex())
+        mut = sorted(set(mut))
+        dstats = {"inputs": len(mut), "both_reject": 0, "both_accept_equal": 0, "both_accept_uncompared": 0, "out_of_model": 0, "diffs": 0}
+        if mut and exe:
+            # memory safety on damaged input is property C10; here only the decoded value matters, so this part runs on the
+            # plain build (UBSan flags `flag << 16` on a negative tuple flag read from a damaged stream, marsh.c unmarshal_one)
+            try:
+                janet_plain = ctx.build.variant("plain")["janet"]
+            except BuildError:
+                janet_plain = janet
+            rc, out, err = run_cmd([janet_plain, os.path.join(H, "graph.janet"), "decode"], input=("\n".join(mut) + "\n").encode(), timeout=1200, env=ENV)
+            iout = out.decode(errors="replace").splitlines()
+            if rc != 0 or len(iout) != len(mut):
+                k = len(iout)
+                bad = mut[k] if k < len(mut) else "?"
+                ctx.notes.append("unmarshal crashed on a damaged encoding near %s (rc=%r): memory safety of untrusted input is C10" % (bad[:120], rc))
+                dstats["crash"] = bad[:200]
+                if os.environ.get("C09_DEBUG"):
+                    open("/tmp/c09t/mut.txt", "w").write("\n".join(mut) + "\n")
+                    open("/tmp/c09t/mut.out", "w").write(out.decode(errors="replace"))
+            else:
+                mo = ctx.model(["unmarshal " + h for h in mut], exe=exe)
+                known_reg = set(n.encode().hex() for n in ("print", "math/sin", "my/regtab", "string/format"))
+                ddiffs = []
+                for h, a, b in zip(mut, iout, mo):
+                    ia, ib = a.startswith("ok"), b.startswith("ok")
+                    if a.startswith("ok ?unsupported") or ((not ib) and ia and re.search(r"^(d7|cc|d9|db|dc|dd|de|e0|e1)|(d7|cc|d9|db|dc|dd|de|e0|e1)", h) and "?" in a):
+                        dstats["out_of_model"] += 1
+                        continue
+                    if not ia and not ib:
+                        dstats["both_reject"] += 1
+                        continue
+                    if ib:
+                        mdesc = b.split(" ", 2)[2]
+                        mroot, mobjs = parse_desc(mdesc)
+                    if ib and not ia:
+                        if proto_type_error(mroot, mobjs) and "expected type" in a:
+                            dstats["both_reject"] += 1
+                            continue
+                        ddiffs.append({"hex": h, "impl": a, "model": b})
+                        continue
+                    if ia and not ib:
+                        # types outside the data model (functions, fibers, abstracts) may still decode on the implementation
+                        if re.search(r"d7|cc|d9|dd|de|e0|e1", h):
+                            dstats["out_of_model"] += 1
+                            continue
+                        ddiffs.append({"hex": h, "impl": a, "model": b})
+                        continue
+                    iroot, iobjs = parse_desc(a[3:])
+                    if not comparable_decoded(mroot, mobjs, known_reg) or not comparable_decoded(iroot, iobjs, known_reg):
+                        dstats["both_accept_uncompared"] += 1
+                        continue
+                    if canon_decoded(mroot, mobjs) == canon_decoded(iroot, iobjs):
+                        dstats["both_accept_equal"] += 1
+                    else:
+                        # int-valued reals, NaN keys, -0.0: the describer normalises what the model keeps boxed
+                        if any(o[0].startswith("R") for o in mobjs) and not any(o[0].startswith("R") for o in iobjs) and len(mobjs) != len(iobjs):
+                            dstats["both_accept_uncompared"] += 1
+                        else:
+                            ddiffs.append({"hex": h, "impl": a, "model": b})
+                dstats["diffs"] = len(ddiffs)
+                if ddiffs:
+                    broken.append("correspondence model/impl on damaged encodings: %d differences, first %s" % (len(ddiffs), json.dumps(ddiffs[:12])[:5000]))
+                    ctx.broken.append(broken[-1])
+        stats["damaged"] = dstats
+        ctx.say("damaged encodings: %r" % dstats)
+
+        # (D4) recursion depth boundary
+        guard = 1024
+        m = re.search(r"recursionGuard : Nat := (\d+)", gen_marsh.render(ctx.build.tree)) if not any("translator" in b for b in broken) else None
+        if m:
+            guard = int(m.group(1))
+        lo, hi = max(1, guard - 3), guard + 3
+        rc, out, err = run_cmd([janet, os.path.join(H, "graph.janet"), "deep", str(lo), str(hi)], timeout=600, env=ENV)
+        dl = out.decode(errors="replace").splitlines()
+        deep_lines = []
+        for d in range(lo, hi + 1):
+            deep_lines.append("marshal r0" + "".join(" | A0 r%d" % (k + 1) for k in range(d)) + " | A0")
+        dm = ctx.model(deep_lines, exe=exe) if exe else []
+        deep = []
+        for d, il, ml in zip(range(lo, hi + 1), dl, dm):
+            iok = " ok " in il
+            mok = ml != "err"
+            deep.append((d, iok, mok))
+            if "FAIL" in il:
+                violations.append(("deep-roundtrip", {"kind": "deep", "depth": d, "line": il}, "nested arrays of depth %d do not round-trip: %s" % (d, il)))
+            elif iok != mok or (iok and int(il.split()[-1]) * 2 != len(ml)):
+                broken.append("recursion depth boundary: depth %d impl %s model %s" % (d, il, "ok" if mok else "err"))
+                ctx.broken.append(broken[-1])
+        if rc != 0 or len(dl) != hi - lo + 1:
+            violations.append(("deep-crash", {"kind": "deep", "rc": rc, "stderr": err.decode(errors="replace")[-2000:]}, "marshal of deeply nested arrays crashed"))
+        stats["depth_boundary"] = deep
+
+        # (E2) code objects and abstract types, asm/disasm: behavioural comparison
+        rounds = 10 if quick else 120
+        cseeds = [ctx.rng.below(2**31 - 1) + 1 for _ in range(nproc)]
+        def code(seed):
+            rc, out, err = run_cmd([janet, os.path.join(H, "code.janet"), str(seed), str(rounds)], timeout=3000, env=ENV)
+            return seed, rc, out.decode(errors="replace").splitlines(), err.decode(errors="replace")[-3000:]
+        with cf.ThreadPoolExecutor(nproc) as ex:
+            cres = list(ex.map(code, cseeds))
+        cstats = {"scenarios": 0, "fail": 0, "by_kind": {}}
+        p64 = []
+        seen_sig = set()
+        for seed, rc, out, err in cres:
+            done = False
+            for l in out:
+                if l.startswith("push64 "):
+                    p64.append(l.split())
+                    continue
+                if l.startswith("done "):
+                    done = True
+                    continue
+                name, _, verdict = l.partition(" ")
+                kind = name.split("/")[0]
+                cstats["scenarios"] += 1
+                cstats["by_kind"][kind] = cstats["by_kind"].get(kind, 0) + 1
+                if verdict != "ok":
+                    cstats["fail"] += 1
+                    sig = "code:" + kind
+                    mm = re.search(r"peg/compile '(.*)\)\) failed: \"invalid peg bytecode\"", verdict)
+                    if mm and re.search(r"\((int|int-be|uint-be) ", mm.group(1)):
+                        sig = "peg-readint-unmarshal-rejected"
+                    if sig not in seen_sig:
+                        seen_sig.add(sig)
+                        violations.append((sig, {"kind": "code", "code_seed": seed, "rounds": rounds, "scenario": name, "verdict": verdict},
+                                           "%s: %s (code.janet %d %d)" % (name, verdict[:300], seed, rounds)))
+            if rc != 0 or not done:
+                violations.append(("code-harness-crash", {"kind": "code-crash", "code_seed": seed, "rounds": rounds, "rc": rc, "stderr": err, "last": out[-2:]},
+                                   "code.janet %d %d crashed (rc=%r): %s" % (seed, rounds, rc, err[-300:])))
+        # push64 as used by the int/u64 boxes on the wire: LB_ABSTRACT, symbol "core/u64", push64(value)
+        if p64 and exe and lb:
+            name = b"core/u64"
+            prefix = bytes([lb["LB_ABSTRACT"], lb["LB_SYMBOL"], len(name)]).hex() + name.hex()
+            mo = ctx.model(["push64 " + p[1] for p in p64], exe=exe)
+            bad = [(p, m) for p, m in zip(p64, mo) if p[2] != prefix + m]
+            if bad:
+                broken.append("correspondence: wire format of int/u64 %s is %s, model says %s" % (bad[0][0][1], bad[0][0][2], prefix + bad[0][1]))
+                ctx.broken.append(broken[-1])
+            cstats["push64_wire_checked"] = len(p64)
+        stats["code"] = cstats
+        ctx.say("code objects: %r" % cstats)
+
+    # (E1) direct oracle on the codec (independent of the model)
+    swept = 0
     if hx:
         ranges = [(-70000, 70000), (2**31 - 70000, 2**31 - 1), (-2**31, -2**31 + 70000), (2**24 - 70000, 2**24 + 70000), (-2**24 - 70000, -2**24 + 70000)]
-        if not quick or broken:
+        if not quick or any("codec" in b or "readint" in b or "pushint" in b or "translator" in b for b in broken):
             step = 2**28
             ranges = [(lo, lo + step - 1) for lo in range(-2**31, 2**31, step)]
-        import concurrent.futures as cf
         def sweep(r):
             rc, out, err = run_cmd([hx], input=("sweep %d %d\n" % r).encode(), timeout=3000, env=ENV)
             return r, rc, out.decode().strip(), err.decode(errors="replace")[-1500:]
@@ -128,44 +521,88 @@ def run(ctx):
             if rc != 0 or out != "ok":
                 direct_fail = {"range": r, "rc": rc, "out": out, "stderr": err}
                 break
-        # decode side: every accepted byte string decodes to a value whose encoding is a prefix-compatible form; truncations must be rejected
+        n64 = 200000 if quick else 20000000
+        rc, out, err = run_cmd([hx], input=("sweep64 %d %d\n" % (ctx.rng.below(2**62), n64)).encode(), timeout=3000, env=ENV)
+        if rc != 0 or out.decode().strip() != "ok":
+            direct_fail = direct_fail or {"sweep64": out.decode().strip(), "rc": rc, "stderr": err.decode(errors="replace")[-1500:]}
+        swept += n64
         if impl_out is not None:
             for l, a in zip(lines, impl_out):
-                if l.startswith("pushint"):
+                if l.startswith("push"):
                     continue
-                h = l[8:]
+                h = l.split(" ", 1)[1] if " " in l else ""
                 if a.startswith("ok"):
                     _, v, used = a.split()
                     if int(used) * 2 > len(h):
                         direct_fail = {"op": l, "impl": a, "why": "consumed more bytes than supplied"}
                         break
-    else:
-        swept = 0
+    found_any = False
     if direct_fail:
+        found_any = True
         if "range" in direct_fail and direct_fail["out"].startswith("fail"):
             x = int(direct_fail["out"].split()[1])
             ctx.violation("codec-roundtrip", {"kind": "roundtrip", "input": x, "detail": direct_fail},
                           what="readint(pushint(%d)) != %d on the implementation" % (x, x))
         else:
             ctx.violation("codec-direct", {"kind": "direct", "detail": direct_fail}, what="integer codec oracle failed: %r" % (direct_fail,))
-    elif broken:
-        ctx.violation("broken:" + broken[0][:80], {"kind": "broken-obligation", "broken": broken, "first_diffs": diffs[:5]}, found=False,
-                      what="no longer shown to hold: " + "; ".join(broken)[:600])
+    seen = set()
+    for sig, rep, what in violations:
+        if sig in seen:
+            continue
+        seen.add(sig)
+        found_any = True
+        rep = dict(rep)
+        if broken:
+            rep["also_broken"] = broken
+        ctx.violation(sig, rep, what=what)
+    if broken and not found_any:
+        ctx.violation("broken:" + broken[0][:80], {"kind": "broken-obligation", "broken": broken, "first_diffs": (diffs + gdiffs)[:5]}, found=False,
+                      what="no longer shown to hold: " + "; ".join(broken)[:900])
+    samples = lines[:2] + lines[len(ints):len(ints) + 2] + [("graph %s/%s %s | %s" % (c[0], c[1], c[4][:60], c[5][:100])) for c in graph_cases[20:24]]
     cov = {
-        "evaluations": len(lines) + swept,
-        "distinct_nontrivial": len(set(lines)),
-        "rule": "ints: every width boundary +-3 and random magnitudes; byte strings: encodings, all truncations, every lead byte, random; "
-                "non-trivial = distinct protocol line; direct sweep = readint(pushint x) on the real functions over %d ints" % swept,
-        "samples": lines[:3] + lines[len(ints):len(ints) + 3],
+        "evaluations": len(lines) + swept + 2 * gstats["cases"] + stats.get("damaged", {}).get("inputs", 0) + stats.get("code", {}).get("scenarios", 0),
+        "distinct_nontrivial": len(set(lines)) + len(set(c[5] for c in graph_cases)) + stats.get("code", {}).get("scenarios", 0),
+        "rule": "ints: every width boundary +-3 and random magnitudes; u64: every 2^w +-2; byte strings: encodings, all truncations, every lead byte, random; "
+                "graphs: random pools of up to 45 values of every data type with back edges through arrays, tables (keys, values, prototypes), "
+                "tuples/structs reached through them, registry values, weak containers (+ 20 fixed scenarios per process); non-trivial = distinct protocol line / "
+                "distinct graph description / scenario instance; direct sweep = readint(pushint x) over %d values" % swept,
+        "samples": samples,
         "correspondence_lines": len(lines), "correspondence_diffs": len(diffs), "impl_roundtrip_swept": swept,
-        "exhaustive": swept == 2**32,
+        "exhaustive_int32": swept >= 2**32,
+        "graphs": gstats, **stats,
     }
-    return ctx.finish("proof", cov, assumptions=["pushint/readint modelled with / and % for >> and & (translator checks each mask is 2^k-1)",
-                                                  "graph-level round trip: see DESIGN.md C09 (in progress)"])
+    return ctx.finish("proof", cov, assumptions=[
+        "pushint/readint/push64/read64 modelled with / and % for >> and & (translator checks each mask is 2^k-1)",
+        "data graphs are presented to the model in reference-number order with immutable values identified up to janet `=` (harness/C09/graph.janet: describe); "
+        "the description is compared byte for byte through `marshal` and value for value through `unmarshal`",
+        "janet_asserttype on decoded prototypes, NaN-key filtering and weak-reference GC are not in the model",
+        "functions, fibers, PEGs, channels, int64 boxes, asm/disasm: tested behaviourally, not proved",
+    ])
 
 
 def replay(ctx, path):
-    import json
     r = json.load(open(path))
-    print(json.dumps(r, indent=1)[:2000])
+    print(json.dumps(r, indent=1)[:3000])
+    kind = r.get("kind")
+    try:
+        janet = ctx.build.variant("asan")["janet"]
+    except BuildError:
+        return run(ctx)
+    if kind == "graph":
+        rc, out, err = run_cmd([janet, os.path.join(H, "graph.janet"), "gen", str(r["gen_seed"]), str(r["per"]), "45"], timeout=3000, env=ENV)
+        for l in out.decode(errors="replace").splitlines():
+            p = l.split(" ", 4)
+            if len(p) == 5 and int(p[0]) == r["index"]:
+                print("replayed: case %s verdict %s" % (p[0], p[1]))
+                if p[1] != "ok":
+                    ctx.violation(r.get("signature", "graph-roundtrip"), r, what="still fails: " + p[1])
+                return ctx.finish("proof", {"evaluations": 1, "distinct_nontrivial": 1, "rule": "replay", "samples": [l[:200]]})
+    if kind == "code":
+        rc, out, err = run_cmd([janet, os.path.join(H, "code.janet"), str(r["code_seed"]), str(r["rounds"])], timeout=3000, env=ENV)
+        for l in out.decode(errors="replace").splitlines():
+            if l.startswith(r["scenario"] + " "):
+                print("replayed:", l[:400])
+                if not l.endswith(" ok"):
+                    ctx.violation(r.get("signature", "code"), r, what="still fails: " + l[:300])
+                return ctx.finish("proof", {"evaluations": 1, "distinct_nontrivial": 1, "rule": "replay", "samples": [l[:200]]})
     return run(ctx)
